@@ -166,30 +166,32 @@ fn tok_class(s: &str) -> String {
 fn slot(d_nocomments_around: &str, offset: usize, end: usize) -> (String, String) {
   let before = strip_comments(&d_nocomments_around[..offset]);
   let prev = before.trim_end();
-  // last token
+  // last token (on characters, the text may contain multi-byte characters)
   let pt = {
-    let mut start = prev.len();
-    let pb = prev.as_bytes();
-    if start == 0 {
+    let cs: Vec<char> = prev.chars().collect();
+    if cs.is_empty() {
       "none".to_string()
     } else {
-      let last = pb[start - 1] as char;
-      if last.is_alphanumeric() || "_-.$@".contains(last) {
-        while start > 0 && ((pb[start - 1] as char).is_alphanumeric() || "_-.$@".contains(pb[start - 1] as char)) {
+      let last = cs[cs.len() - 1];
+      let idc = |c: char| c.is_ascii_alphanumeric() || "_-.$@".contains(c);
+      if idc(last) {
+        let mut start = cs.len();
+        while start > 0 && idc(cs[start - 1]) {
           start -= 1;
         }
-        tok_class(&prev[start..])
+        tok_class(&cs[start..].iter().collect::<String>())
       } else if last == '"' || last == '\'' {
         "lit".into()
       } else {
-        // operators: look at up to 3 chars
-        let s3 = &prev[prev.len().saturating_sub(3)..];
+        let s3: String = cs[cs.len().saturating_sub(3)..].iter().collect();
+        let mut r = if last.is_ascii() { last.to_string() } else { "lit".to_string() };
         for p in ["//=", "...", "=>", "/=", "//", ".."] {
           if s3.ends_with(p) {
-            return (p.to_string(), tok_class(strip_comments(&d_nocomments_around[end..]).trim_start()));
+            r = p.to_string();
+            break;
           }
         }
-        last.to_string()
+        r
       }
     }
   };
